@@ -548,7 +548,9 @@ func (st *c05State) collect(units []*c05Unit, dump string) {
 			if c.Region != "" {
 				sm.count("function-level:" + c.Kind + ":" + c.Region)
 			}
-			sm.CaseIndex[fmt.Sprint(c.ID)] = c.Input
+			if len(sm.CaseIndex) < c05MaxIndex {
+				sm.CaseIndex[fmt.Sprint(c.ID)] = c.Input
+			}
 			if nontrivU {
 				st.distinct.add(un.u.decls(), c.Kind, fmt.Sprint(c.Input["type"], c.Input["ptr"], c.Input["name"], c.Input["iface"]))
 			}
@@ -615,7 +617,9 @@ func (st *c05State) collect(units []*c05Unit, dump string) {
 						in["cases"] = ts
 					}
 					in["universe"] = un.key()
-					sm.CaseIndex[fmt.Sprint(sub.ID)] = in
+					if len(sm.CaseIndex) < c05MaxIndex {
+						sm.CaseIndex[fmt.Sprint(sub.ID)] = in
+					}
 					if nontrivU {
 						st.distinct.add(un.u.decls(), px.Kind, px.Form, fmt.Sprint(px.T, px.Ptr, px.Name, px.Src, px.Mutate, px.Bind, in["target"], in["cases"]))
 					}
@@ -770,6 +774,9 @@ func (st *c05State) coqCase(u *c05Univ, px *c05ProbeX, sub *c05Sub, ys, gs map[s
 	}
 	return nil
 }
+
+// the printable index of cases (used by the driver to show an example) is capped
+const c05MaxIndex = 80000
 
 // full: should this mismatch carry the declarations and the probe source? (always when unexplained, else the first 25 per region)
 func (st *c05State) full(region string) bool {
